@@ -53,6 +53,30 @@ func (e *SpecEnv) curState() *State {
 	return e.st
 }
 
+// localTerm: the value a contract denotes by naming the Go variable v of the unit.
+func (e *SpecEnv) localTerm(v *types.Var, name string) Term {
+	u := e.u
+	st := e.curState()
+	if e.inOld {
+		if ev, ok := u.entryVals[v]; ok {
+			return ev
+		}
+	}
+	if isParamOf(u.sig, v) && !e.loopInv {
+		if ev, ok := u.entryVals[v]; ok {
+			if u.boxed[v] {
+				return u.readVar(st, v, token.NoPos)
+			}
+			return ev
+		}
+	}
+	if _, has := st.vars[v]; has || u.volatile[v] {
+		return u.readVar(st, v, token.NoPos)
+	}
+	e.outOfScope = true
+	return e.fail("variable %s is not in scope at this point", name)
+}
+
 func (e *SpecEnv) lookup(name string) (Term, bool) {
 	if t, ok := e.bound[name]; ok {
 		return t, true
@@ -74,6 +98,12 @@ func (e *SpecEnv) lookup(name string) (Term, bool) {
 			if v, ok := u.rangeVars[n]; ok {
 				return u.readVar(e.curState(), v, token.NoPos), true
 			}
+			// the range loop the contract was written for is now a counted loop `for i := 0; ...; i++`: its counter
+			if v, ok := u.forIdxVars[n]; ok {
+				if _, has := e.curState().vars[v]; has {
+					return u.readVar(e.curState(), v, token.NoPos), true
+				}
+			}
 		}
 	}
 	// Go locals of the unit (own contracts only)
@@ -81,25 +111,7 @@ func (e *SpecEnv) lookup(name string) (Term, bool) {
 		if sc := u.pkg.Types.Scope().Innermost(e.scopePos); sc != nil {
 			if _, obj := sc.LookupParent(name, e.scopePos); obj != nil {
 				if v, ok := obj.(*types.Var); ok && v.Parent() != u.pkg.Types.Scope() {
-					st := e.curState()
-					if e.inOld {
-						if ev, ok := u.entryVals[v]; ok {
-							return ev, true
-						}
-					}
-					if isParamOf(u.sig, v) && !e.loopInv {
-						if ev, ok := u.entryVals[v]; ok {
-							if u.boxed[v] {
-								return u.readVar(st, v, token.NoPos), true
-							}
-							return ev, true
-						}
-					}
-					if _, has := st.vars[v]; has || u.volatile[v] {
-						return u.readVar(st, v, token.NoPos), true
-					}
-					e.outOfScope = true
-					return e.fail("variable %s is not in scope at this point", name), true
+					return e.localTerm(v, name), true
 				}
 			}
 		}
@@ -236,6 +248,12 @@ func (e *SpecEnv) eval(x ast.Expr) Term {
 	case *ast.Ident:
 		if t, ok := e.lookup(x.Name); ok {
 			return t
+		}
+		// a local the contract was written for but that was renamed since: baseline bindings (bindings.go)
+		if e.own && e.u.decl != nil {
+			if v := e.u.rebindVar(x.Name, e.scopePos); v != nil {
+				return e.localTerm(v, x.Name)
+			}
 		}
 		return e.fail("unknown identifier %q in contract", x.Name)
 	case *ast.SelectorExpr:
@@ -552,6 +570,17 @@ func (e *SpecEnv) call(x *ast.CallExpr) Term {
 				}
 			}
 			return Term{S: or(eq(r, "0"), "(>= "+r+" "+la+")"), T: types.Typ[types.Bool]}
+		case "cidstr":
+			// cidstr(c): the text form c.String() of a cid.Cid (injective pure function of the value)
+			a := e.eval(x.Args[0])
+			if a.T == nil || u.c.sortOf(a.T) != "S_cid_Cid" {
+				return e.fail("cidstr needs a cid.Cid value")
+			}
+			cs := u.c.sortOf(a.T)
+			u.c.declareFun("cid.str", "("+cs+") Str")
+			u.c.declareFun("cid.str.inv", "(Str) "+cs)
+			u.c.declareRaw("cid.str.injective", fmt.Sprintf("(assert (forall ((x %s)) (! (= (cid.str.inv (cid.str x)) x) :pattern ((cid.str x)))))", cs))
+			return Term{S: "(cid.str " + a.S + ")", T: types.Typ[types.String]}
 		case "cidlen", "cidbyte":
 			// byte form of a cid.Cid value (pure functions of the value): its length and k-th byte
 			a := e.eval(x.Args[0])
